@@ -295,12 +295,14 @@ def delivery_program(status, out, err):
         def q(b):
             return ''.join('\\%03o' % c for c in b)
         with open(path, 'w') as f:
-            f.write('#!/bin/sh\ncat >/dev/null\nprintf \'%s\'\nprintf \'%s\' >&2\nexit %d\n' % (q(out), q(err), status))
+            # a negative status means: the program is killed by that signal (crash, OOM killer) after writing its output
+            end = 'exit %d' % status if status >= 0 else 'kill -%d $$; sleep 5' % -status
+            f.write('#!/bin/sh\ncat >/dev/null\nprintf \'%s\'\nprintf \'%s\' >&2\n%s\n' % (q(out), q(err), end))
         os.chmod(path, os.stat(path).st_mode | stat.S_IEXEC)
     return path
 
 
-PIPE_STATUS = [0, 1, 2, 75, 126]
+PIPE_STATUS = [0, 1, 2, 75, 126, -9, -15]
 PIPE_TEXTS = [b'', b'5.1.1 user unknown\n', b'4.2.0 mailbox busy\n', b'something broke\n', b'line one\nline two\n', b'\xff\xfe binary\n',
               b'maildrop: quota exceeded\n', b'5.1.1 \xc3\xa9 utf8\n']
 
@@ -454,7 +456,8 @@ def replay(case):
             bytes.fromhex(case['out']), bytes.fromhex(case['err'])
         except Exception:
             return []
-        case['status'] = int(case.get('status', 0)) % 256
+        st_ = int(case.get('status', 0))
+        case['status'] = st_ % 256 if st_ >= 0 else -((-st_) % 32 or 9)
         case['nrcpt'] = max(1, min(3, int(case.get('nrcpt', 1))))
         f, _ = run_pipe_case(case)
         return f
